@@ -5,6 +5,7 @@
 import Valida.Codec
 import Valida.Heap
 import Valida.Spec.Ser
+import Valida.AddSchema
 open Lean (Json)
 open Valida Valida.Codec ValidaGen
 
@@ -160,6 +161,16 @@ def handle (j : Json) : P Json := do
       pure (Json.bool (pathEq (← decPath a[1]!) (← decPath a[2]!)))
   | "eq_rule" => do
       pure (Json.bool (ruleEq (← decRule a[1]!) (← decRule a[2]!)))
+  | "add_schema" => do
+      -- [S rules (applied order), [[T rules, root path], ...]]: S after each call
+      let s0 ← (← arr a[1]!).toList.mapM decRule
+      let calls ← (← arr a[2]!).toList.mapM (fun it => do
+        let p ← arr it
+        pure ((← (← arr p[0]!).toList.mapM decRule), (← decPath p[1]!)))
+      let (_, outs) := calls.foldl (fun (acc : List RuleM × List Json) (c : List RuleM × Path) =>
+        let s' := addSchema acc.1 c.1 c.2
+        (s', acc.2 ++ [Json.arr (s'.map encRule).toArray])) (Schema.mk' s0, [])
+      pure (Json.arr outs.toArray)
   | "mkpart" => do
       let kind ← decPartKind (← str a[1]!)
       let key ← decDatumSpec a[2]!
